@@ -141,11 +141,30 @@ def _strip_c_style_comments(line: str, in_block_comment: bool) -> tuple[str, boo
         elif line.startswith("/*", index):
             index, in_block_comment = index + 2, True
         else:
-            if line[index] in "\"`":
+            if line[index] in "\"`" or _opens_single_quoted_literal(line, index):
                 quote = line[index]
             code.append(line[index])
             index += 1
     return "".join(code), in_block_comment
+
+
+def _opens_single_quoted_literal(line: str, index: int) -> bool:
+    """Check for a 'single-quoted' literal that is closed on the same line.
+
+    TS/JS strings and Rust character literals may contain comment markers ('lib/*'); a quote
+    without a partner on the line is a Rust lifetime and opens nothing.
+    """
+    if line[index] != "'":
+        return False
+    position = index + 1
+    while position < len(line):
+        if line[position] == "\\":
+            position += 2
+            continue
+        if line[position] == "'":
+            return True
+        position += 1
+    return False
 
 
 def has_responsibility_keyword(class_name: str, keywords: list[str]) -> bool:
